@@ -129,7 +129,7 @@ def run(prop, mod, build, tier, seed, t0):
     proof_broken = [o for o in obligations if o[1] != "proved"]
 
     # --- classify
-    rdir = os.path.join(vlib.VERIF, "evidence", "replays")
+    rdir = os.path.join(vlib.evidence_dir(), "replays")
     os.makedirs(rdir, exist_ok=True)
     for fn in os.listdir(rdir):
         if fn.startswith(prop + "_"):
